@@ -172,11 +172,18 @@ def splitDump (s : String) : List (String × String) :=
 def ancestorsDurable (sp : Spec) (p : Path) : Bool :=
   (List.range p.length).all fun n => isDirAt sp (p.take n)
 
-def dumpAgrees (sp : Spec) (specObs implObs : String) : Bool :=
+/-- paths at which two dumps disagree (`durableOnly`: the C07 ancestor rule) -/
+def dumpDiff (durableOnly : Bool) (sp : Spec) (specObs implObs : String) : List Path :=
   let a := splitDump specObs
   let b := splitDump implObs
-  a.length == b.length && (a.zip b).all fun (x, y) =>
-    x.1 == y.1 && (x.2 == y.2 || !(ancestorsDurable sp (parsePath x.1)))
+  if a.length != b.length then [[]] else
+  (a.zip b).filterMap fun (x, y) =>
+    if x.1 != y.1 then some []
+    else if x.2 == y.2 then none
+    else if durableOnly && !(ancestorsDurable sp (parsePath x.1)) then none
+    else some (parsePath x.1)
+
+def dumpAgrees (sp : Spec) (specObs implObs : String) : Bool := (dumpDiff true sp specObs implObs).isEmpty
 
 structure Verdict where
   kOk : Bool := true
@@ -186,16 +193,17 @@ structure Verdict where
   oLine : Nat := 0
   oDetail : String := ""
   cov : List String := []
+  pattern : String := "none"
 
 def addCov (cov : List String) (tags : List String) : List String :=
   tags.foldl (fun acc t => if acc.contains t then acc else acc ++ [t]) cov
 
-def evalCase (prop : String) (c : CaseIn) : Verdict × List (List Op) := Id.run do
+def evalCase (prop : String) (c : CaseIn) : Verdict := Id.run do
   let cfg : Cfg := { block := c.block }
   let mut sts : Array St := #[St.init, St.init]
   let mut sps : Array Spec := #[Spec.init, Spec.init]
   let mut crashed : Array Bool := #[false, false]
-  let mut hist : Array (List Op) := #[[], []]
+  let mut taints : Array (List Taint) := #[[], []]
   let mut v : Verdict := {}
   for r in c.recs do
     let h := r.host % 2
@@ -210,29 +218,32 @@ def evalCase (prop : String) (c : CaseIn) : Verdict × List (List Op) := Id.run 
       let (sp1, so) := sStep cfg sp op r.ora
       sts := sts.set! h st1
       sps := sps.set! h sp1
-      hist := hist.set! h (hist[h]! ++ [op])
+      let ts := monStep cfg taints[h]! st sp op r.ora
+      taints := taints.set! h ts
       if op == .crash then crashed := crashed.set! h true
       let ms := renderObs mo
       if v.kOk && ms != r.obs then
         v := { v with kOk := false, kLine := r.line, kDetail := s!"model={ms} impl={r.obs}" }
       if v.oOk then
         let ss := renderObs so
-        if prop == "C10" then
-          if ss != r.obs then
-            v := { v with oOk := false, oLine := r.line, oDetail := s!"posix={ss} impl={r.obs}" }
-        else
-          match op with
-          | .dump _ =>
-            if crashed[h]! && !(dumpAgrees sp1 ss r.obs) then
-              v := { v with oOk := false, oLine := r.line, oDetail := s!"durable={ss} impl={r.obs}" }
-          | _ => pure ()
-  return (v, hist.toList)
-
-def classify (prop : String) (hists : List (List Op)) : String :=
-  let pats := hists.flatMap fun h => matchingPatterns prop h
-  match pats with
-  | [] => "none"
-  | p :: _ => p
+        let bad : List Path :=
+          if prop == "C10" then
+            if ss == r.obs then [] else
+            match op with
+            | .dump _ => dumpDiff false sp1 ss r.obs
+            | _ => let ps := opPaths st op; if ps.isEmpty then [[]] else ps
+          else
+            match op with
+            | .dump _ => if crashed[h]! then dumpDiff true sp1 ss r.obs else []
+            | _ => []
+        if !bad.isEmpty then
+          let pat := match explain ts bad with
+            | some n => findingId prop n
+            | none => "none"
+          let lbl := if prop == "C10" then "posix" else "durable"
+          v := { v with oOk := false, oLine := r.line, pattern := pat,
+                        oDetail := s!"at={" ".intercalate (bad.map renderPath)} {lbl}={ss} impl={r.obs}" }
+  return v
 
 /-! ### trace reader -/
 
@@ -246,8 +257,8 @@ def parseCfg (c : CaseIn) (toks : List String) : CaseIn := Id.run do
   return c
 
 def finishCase (prop : String) (c : CaseIn) : IO (Bool × Bool) := do
-  let (v, hists) := evalCase prop c
-  let pattern := if v.oOk then "none" else classify prop hists
+  let v := evalCase prop c
+  let pattern := v.pattern
   let line := if !v.kOk then v.kLine else if !v.oOk then v.oLine else 0
   let detail := if !v.kOk then "K: " ++ v.kDetail else if !v.oOk then "O: " ++ v.oDetail else "-"
   let variant := if v.kOk then "faithful" else "-"
@@ -356,27 +367,34 @@ def enumRun (prop : String) (len : Nat) (full : Bool) : IO Unit := do
       else h.flatMap id ++ [.crash, .dump enumPool]
     let mut st := St.init
     let mut sp := Spec.init
+    let mut ts : List Taint := []
     let mut ok := true
     let mut idx := 0
     let mut detail := ""
+    let mut pat := "none"
     for op in ops do
+      ts := monStep {} ts st sp op {}
       let (st1, mo) := step {} st op {}
       let (sp1, so) := sStep {} sp op {}
+      if ok then
+        let badp : List Path :=
+          if prop == "C10" then
+            if renderObs mo == renderObs so then [] else
+            match op with
+            | .dump _ => dumpDiff false sp1 (renderObs so) (renderObs mo)
+            | _ => let ps := opPaths st op; if ps.isEmpty then [[]] else ps
+          else match op with
+            | .dump _ => dumpDiff true sp1 (renderObs so) (renderObs mo)
+            | _ => []
+        if !badp.isEmpty then
+          ok := false
+          pat := match explain ts badp with | some n => findingId prop n | none => "none"
+          detail := s!"at op {idx} ({renderOp op}): impl={renderObs mo} spec={renderObs so}"
       st := st1
       sp := sp1
-      if ok then
-        let agree :=
-          if prop == "C10" then renderObs mo == renderObs so
-          else match op with
-            | .dump _ => dumpAgrees sp1 (renderObs so) (renderObs mo)
-            | _ => true
-        if !agree then
-          ok := false
-          detail := s!"at op {idx} ({renderOp op}): impl={renderObs mo} spec={renderObs so}"
       idx := idx + 1
     if !ok then
       bad := bad + 1
-      let pat := classify prop [ops]
       byPat := match byPat.find? (·.1 == pat) with
         | some _ => byPat.map fun kv => if kv.1 == pat then (kv.1, kv.2 + 1) else kv
         | none => byPat ++ [(pat, 1)]
